@@ -887,7 +887,8 @@ func (g *G) genAggOp(c *cur) {
 	if len(vs) > 0 && g.chance("aggsrc", 4, 5) {
 		v = vs[g.intn("aggv", len(vs))]
 	} else {
-		t := am.S(g.intType(), am.A(2, g.scalarType()))
+		// nested aggregate whose levels differ in shape, so that every index of a path matters
+		t := am.S(g.intType(), am.S(g.scalarType(), g.intType(), g.scalarType()), am.A(2, am.S(g.scalarType(), g.intType())))
 		v = c.val(t)
 	}
 	t := v.Type()
@@ -912,7 +913,7 @@ func (g *G) genAggOp(c *cur) {
 		default:
 			goto done
 		}
-		if g.chance("stopidx", 1, 2) {
+		if g.chance("stopidx", 1, 3) {
 			break
 		}
 	}
